@@ -24,7 +24,7 @@ RULE = (
     "once per distinct reached state: every mutator of the group/dataset/attribute/metadata protocol must raise and leave "
     "the raw container dump unchanged (read_only), every reader must raise (skel_only), every reached node must lie at or "
     "below the start and upward/absolute operations must raise (local_only), flags of every reached wrapper must include "
-    "the start's flags, restrict(flag=False) must not clear a flag. non-trivial = chain of length >=1; distinct = "
+    "the start's flags, restrict(flag=False) and writes to the dict returned by .acl must not clear a flag. non-trivial = chain of length >=1; distinct = "
     "(driver, start, flags, chain)."
 )
 ANCHORS = ["src/metador_core/container/wrappers.py", "src/metador_core/container/interface.py"]
@@ -320,6 +320,18 @@ def explore(acc, d, driver, start_path, flagset, maxlen, seed, variant="fresh"):
 
 def terminals(acc, sub, n, flagset, is_start, schemas, desc0, chain):
     case = {"driver": desc0[0], "start": desc0[1], "flags": desc0[2], "variant": desc0[3], "chain": list(chain)}
+    # whatever the public surface hands out about the restrictions is the caller's to scribble on: it must not be the live state
+    acc.count("terminals.acl_dict_writes")
+    try:
+        handed_out = n.acl
+        for k in list(handed_out):
+            handed_out[k] = False
+        handed_out.clear()
+    except Exception:
+        pass
+    if not set(flagset) <= flags_of(n):
+        acc.violation("restriction-lifted:acl-dict", f"writing to the dict returned by .acl of {n.name} (chain {list(chain)}) cleared {sorted(set(flagset) - flags_of(n))}", case | {"terminal": "acl-dict"})
+        return "rebuild"
     if "read_only" in flagset:
         before = raw_dump(sub.raw)
         for name, fn in mutators(n, schemas).items():
